@@ -7,7 +7,7 @@
 //!        below P; the underlying tree outside P never changes; inside P it equals the
 //!        altroot's own view re-rooted.
 //!   CORR: results, snapshots and the recorded call multiset against the Lean model.
-use crate::tree_stream::{gen_layers, gen_op, parse_snap, populate_lines, project, Cfg, Obs, Op, TreeSpec, UNIVERSE};
+use crate::tree_stream::{gen_layers, gen_op, parse_snap, populate_lines, project, Cfg, Obs, Op, TreeSpec, universe};
 use crate::util::*;
 use crate::world::RWorld;
 use crate::wrappers::is_mutating;
@@ -37,7 +37,7 @@ struct StepIdx {
 }
 
 fn uni_args(prefix: &str, extra: &[&str]) -> String {
-    let mut v: Vec<String> = UNIVERSE.iter().map(|p| enc_str(&format!("{}{}", prefix, p))).collect();
+    let mut v: Vec<String> = universe().iter().map(|p| enc_str(&format!("{}{}", prefix, p))).collect();
     for e in extra {
         v.push(enc_str(e));
     }
